@@ -385,6 +385,58 @@ def k_bag(run, case, rng, work):
               "timestamp" % float(worst * 10**9), key="bag:stamps-header")
 
 
+def k_text_cli(run, case, rng, work):
+    """
+    File to file through the command line without any processing option (evo_traj tum|kitti f
+    [-v] [--full_check] [--ref g] --save_as_tum / --save_as_kitti): the exports hold exactly the
+    float64 values of the inputs - informational options included.
+    """
+    from vmon import cli
+    fmt = ["tum", "kitti"][rng.integers(2)]
+    cls = ["negzero", "random17", "epoch", "ordinary"][rng.integers(4)]
+    n = int(rng.integers(1, 40))
+    files = {}
+    for name in (["a.txt", "gt.txt"] if rng.random() < .5 else ["a.txt"]):
+        tr = make_traj(rng, n if fmt == "kitti" else int(rng.integers(1, 40)), cls, "xyzq", fmt == "tum")
+        v = gen.read_views(tr)
+        if cls == "negzero" or rng.random() < .3:
+            # (negative zeros also in the first and the last pose)
+            for row in (0, -1):
+                v["p"][row, int(rng.integers(3))] = -0.0
+        text = rm.write_tum_text(v["t"], v["p"], v["q"]) if fmt == "tum" else \
+            rm.write_kitti_text(v["p"], np.array([P[:3, :3] for P in v["T"]]))
+        open(os.path.join(work, name), "w").write(text)
+        files[name] = rm.parse_tum(text) if fmt == "tum" else rm.parse_kitti(text)
+    out = os.path.join(work, "out")
+    os.makedirs(out)
+    info = [[], ["-v"], ["--full_check"], ["-v", "--full_check"], ["--debug"], ["--silent"]][rng.integers(6)]
+    argv = [fmt, os.path.join(work, "a.txt")] + (["--ref", os.path.join(work, "gt.txt")] if "gt.txt" in files else []) + \
+        info + ["--save_as_" + fmt, "--no_warnings"]
+    res = cli.run_cli("traj", argv, cwd=out)
+    run.seen(case, core.digest(fmt, cls, info, [f[1] for f in files.values()]), cls=["text file through evo_traj --save_as_" + fmt,
+                                                                                 "values:" + cls, "informational options: " + (" ".join(info) or "none")],
+             sample={"fmt": fmt, "values": cls, "options": info, "exit": res.exit})
+    if res.exc is not None or res.exit != 0:
+        # (e.g. --full_check on stamps that are not ascending: refused, nothing to compare)
+        run.hit("text export through evo_traj refused (not judged)")
+        return
+    for name, parsed in files.items():
+        path = os.path.join(out, name.replace(".txt", "." + fmt))
+        if not run.check(os.path.exists(path), "evo_traj writes the export", case, "export %s missing" % path, key="textcli:missing"):
+            continue
+        back = rm.parse_tum(open(path).read()) if fmt == "tum" else rm.parse_kitti(open(path).read())
+        if fmt == "tum":
+            ok = same_bits(back[0], parsed[0]) and same_bits(back[1], parsed[1])
+            okq = back[3].shape == parsed[3].shape and bool(np.all(np.abs(np.abs(np.sum(back[3] * parsed[3], axis=1)) - 1) < 1e-12))
+        else:
+            ok, okq = same_bits(back[0], parsed[0]), True
+        run.check(ok, "text export through evo_traj: stamps and positions identical float64", case,
+                  "%s -> %s: a stamp / coordinate changed (e.g. %r -> %r)" %
+                  ((name, os.path.basename(path)) + _first_diff(parsed[1] if fmt == "tum" else parsed[0], back[1] if fmt == "tum" else back[0])),
+                  key="textcli:lossy")
+        run.check(okq, "text export through evo_traj: orientations kept", case, "orientations changed", key="textcli:orientations")
+
+
 def k_bag_cli(run, case, rng, work):
     """
     Bag to bag through the command line (evo_traj bag in.bag <topics> [--ref T] --save_as_bag): every
@@ -469,7 +521,7 @@ def with_work(fn):
 
 
 KINDS = {"text": with_work(k_text), "result": with_work(k_result), "df": with_work(k_df),
-         "bag": with_work(k_bag), "bag_cli": with_work(k_bag_cli)}
+         "bag": with_work(k_bag), "bag_cli": with_work(k_bag_cli), "text_cli": with_work(k_text_cli)}
 
 
 def main(run):
@@ -489,7 +541,9 @@ def main(run):
         KINDS["bag"](run, run.case("bag", i))
     for i in run.mine({"quick": 32, "thorough": 600}[run.tier]):
         KINDS["bag_cli"](run, run.case("bag_cli", i))
-    run.need("bag export through evo_traj: frame id preserved", "tum: timestamps identical float64", "tum: positions identical float64",
+    for i in run.mine({"quick": 64, "thorough": 1200}[run.tier]):
+        KINDS["text_cli"](run, run.case("text_cli", i))
+    run.need("text export through evo_traj: stamps and positions identical float64", "bag export through evo_traj: frame id preserved", "tum: timestamps identical float64", "tum: positions identical float64",
              "tum: quaternions identical float64", "kitti: matrix entries identical float64",
              "result: statistics identical float64", "result: arrays identical float64",
              "result: embedded trajectory identical float64", "result: info identical (unicode)",
